@@ -105,8 +105,8 @@ func init() {
 }
 
 var (
-	ktString = keyType[string]{[]string{"", "a", "b", "ab", "k4", "B", "zz", "\x00"}, func(a, b string) bool { return a < b }, func(k string) string { return fmt.Sprintf("%q", k) }}
-	ktInt    = keyType[int]{[]int{0, 1, -1, 2, 100, -100, 7, 3}, func(a, b int) bool { return a < b }, func(k int) string { return fmt.Sprint(k) }}
+	ktString = keyType[string]{[]string{"", "a", "b", "ab", "\xe9", "B", "\xe8", "\x00"}, func(a, b string) bool { return a < b }, func(k string) string { return fmt.Sprintf("%q", k) }}
+	ktInt    = keyType[int]{[]int{0, 1, -1, 2, math.MaxInt64, math.MinInt64, 7, 3}, func(a, b int) bool { return a < b }, func(k int) string { return fmt.Sprint(k) }}
 	ktRune   = keyType[rune]{[]rune{'a', 'b', 0, 'é', '😀', 'A', '\n', 'z'}, func(a, b rune) bool { return a < b }, func(k rune) string { return fmt.Sprintf("%q", k) }}
 	ktFloat  = keyType[float64]{[]float64{0, math.Copysign(0, -1), 1.5, -2, 1e300, math.Inf(1), -1e-300, 3}, func(a, b float64) bool { return a < b }, func(k float64) string { return fmt.Sprint(k) }}
 	ktAny    = keyType[any]{[]any{"a", int64(1), 1.0, true, nil, 'x', "b", int64(-5)}, nil, func(k any) string { return fmt.Sprintf("%#v", k) }}
